@@ -177,6 +177,18 @@ def build_cases(ctx, histories, grid, d):
     for lo in range(0, 80, 40):
         add([{"obj": [kind, "d2"], "input": {"family": "bytes", "len": len(litrun), "seed": 0, "bytes": litrun}, "depth": 0 if kind == "fast" else 1,
               "dstLen": dl, "spare": 0} for dl in range(lo, lo + 40) for kind in ("fast", "hc")])
+    # (4a'') the same for the HC compressor, whose search visits only the positions of its skip schedule while it finds
+    # nothing (si += 1 + (si - anchor) >> 7): literal runs of exactly 15 + 255 k bytes that it can actually emit before a match
+    visited, r_ = [], 0
+    while r_ <= (4 << 20):
+        visited.append(r_)
+        r_ += 1 + (r_ >> 7)
+    hcruns = [(p_, visited[i - 1]) for i, p_ in enumerate(visited) if i > 0 and p_ >= 270 and (p_ - 15) % 255 == 0 and p_ + 128 <= (4 << 20)]
+    hcruns += [(visited[len(visited) // 3], visited[len(visited) // 3 - 1])]
+    for P, Q in hcruns[:2 if q else 4]:
+        inp = {"family": "hcvisit", "len": P + 96, "seed": 77, "p1": P, "p2": Q}
+        add([{"obj": ["hc", rnd.choice(["v1", "pool"])], "input": inp, "depth": dep, "dstLen": -1, "spare": 0} for dep in (0, 1, 9)] +
+            [{"obj": ["fast", "v1"], "input": inp, "depth": 0, "dstLen": -1, "spare": 0}])
     # (4b) incompressible sources beyond 1 MiB with a destination of exactly the code's CompressBlockBound, and every
     # length where the code's bound is below BoundLemma!WorstCaseSize (found on a grid up to 2^30; executed up to 64 MiB)
     for n in ([1 << 20, (3 << 20) + 5] if q else [1 << 20, (3 << 20) + 5, 8 << 20, (16 << 20) + 1, 48 << 20]) + ctx.extra.get("bound_grid_short", [])[:3]:
